@@ -5,7 +5,8 @@ TRUSTED = BASE_TRUSTED + ["soundness is proved as: decision characterisation, sp
                           "ristretto under the group-law hypothesis (implementation-only runs)"]
 RULE = ("all (sk, ciphertext) over the 121 ciphertexts of p=23 (quick: every sk, ciphertext slice) through decrypt_and_prove and "
         "verify_decryption; wrong factors (f*g, f^2, identity), proofs moved across ciphertext / key / label at 16/62/2048 "
-        "bits; batches of size 1..8 with a single bad pair at every position through the crate-private "
+        "bits; wrong factors with fresh hash-consistent proofs by a malicious key holder (factor gr^(sk+y) g^(ky) with witness "
+        "sk+y for k in {1,-1,2,1/2}, wrong witness, wrong factor with its own proof); batches of size 1..8 with a single bad pair at every position through the crate-private "
         "Keymaker::verify_decryption_factors (hook); threshold::decryption_factor with share and verification key; "
         "every output and decision compared with the Gallina model")
 
@@ -56,6 +57,41 @@ def run(env):
             f, pf, draws, used = o
             items.append((c, ctx, "th_decryption_factor_r", a[:4] + draws[:1], [f, pf]))
             st2.append({"ctx": ctx, "op": "verify_decryption", "args": [a[2], f, a[0][0], a[0][1], pf, a[3]], "_want": True, "_src": c, "tag": "verify-honest"})
+    # malicious key holder: wrong factors with FRESH, hash-consistent proofs made by the stock prover
+    # (Zkp::decryption_proof takes witness and factor as arguments). Only the two equations can reject these.
+    sta = []
+    for pstr, n in (("65267", 2 if env.quick else 10), (str(P62), 3 if env.quick else 20), ("2048", 1 if env.quick else 3)):
+        for fl in "BM":
+            ctx = "%s:%s" % (fl, pstr); P_, q_, g_ = pq(ctx)
+            inv2 = pow(2, -1, q_)
+            fams = [("folded k=1", 1), ("folded k=-1", q_ - 1), ("folded k=2", 2), ("folded k=1/2", inv2), ("wrong-witness", None), ("wrong-factor-own-proof", None)]
+            if pstr == "2048" and env.quick:
+                fams = [fams[0], fams[4 + r.randrange(2)]]
+            for _ in range(n):
+                for name, k in fams:
+                    sk = r.randrange(1, q_); y = r.randrange(1, q_)
+                    pk = pow(g_, sk, P_); mhr = rnd_member(r, ctx); gr = rnd_member(r, ctx)
+                    while gr == 1:
+                        gr = rnd_member(r, ctx)
+                    lab = hexb(r.randbytes(r.choice([0, 5])))
+                    if k is not None:
+                        w = (sk + y) % q_
+                        f = (pow(gr, w, P_) * pow(g_, (k * y) % q_, P_)) % P_
+                    elif name == "wrong-witness":
+                        w = (sk + y) % q_; f = pow(gr, w, P_)
+                    else:
+                        w = sk; f = (pow(gr, sk, P_) * pow(g_, y, P_)) % P_
+                    if f == pow(gr, sk, P_):
+                        continue
+                    sta.append({"ctx": ctx, "op": "dec_proof", "args": [str(w), str(pk), str(f), str(mhr), str(gr), lab, script(r, 1024)],
+                                "tag": "malicious-prover", "_name": name})
+    oa = env.harness(sta)
+    for c, o in zip(sta, oa):
+        if not isinstance(o, list):
+            continue
+        a = c["args"]; ctx = c["ctx"]
+        st2.append({"ctx": ctx, "op": "verify_decryption", "args": [a[1], a[2], a[3], a[4], o[0], a[5]],
+                    "_want": False if pstr_big(ctx) else None, "_src": c, "tag": "malicious:" + c["_name"]})
     o2 = env.harness(st2)
     for c, o in zip(st2, o2):
         items.append((c, c["ctx"], c["op"], c["args"], o))
@@ -102,6 +138,16 @@ def run(env):
                      {"ctx": "R", "op": "verify_decryption", "args": [pk[0], els[0], els[0], els[1], o[1], "x:"], "tag": "ristretto"}])
     if v[0] is not True or v[1] is not False:
         env.violation("ristretto verifiable decryption: honest=%s wrong-factor=%s" % (v[0], v[1]), {"kind": "battery", "case": {"ctx": "R"}})
+    # ristretto, malicious key holder: factor gr^(sk+y) * g^y with a fresh proof for witness sk+y
+    y = r.randrange(1, 1000)
+    parts = env.harness([{"ctx": "R", "op": "epow", "args": [els[1], str(999 + y)], "tag": "ristretto"}, {"ctx": "R", "op": "gpow", "args": [str(y)], "tag": "ristretto"}])
+    fbad = env.harness([{"ctx": "R", "op": "emulp", "args": [parts[0], parts[1]], "tag": "ristretto"}])[0]
+    pfb = env.harness([{"ctx": "R", "op": "dec_proof", "args": [str(999 + y), pk[0], fbad, els[0], els[1], "x:6d", script(r, 256)], "tag": "ristretto"}])[0]
+    if isinstance(pfb, list):
+        vb = env.harness([{"ctx": "R", "op": "verify_decryption", "args": [pk[0], fbad, els[0], els[1], pfb[0], "x:6d"], "tag": "ristretto-malicious"}])[0]
+        if vb is not False:
+            env.violation("ristretto verify_decryption accepts the wrong factor gr^(sk+y) g^y with a fresh proof for witness sk+y: %s" % vb,
+                          {"kind": "battery", "case": {"ctx": "R", "y": y, "factor": fbad, "proof": pfb[0]}})
     if fails:
         env.tie_violation("C07", fails)
 
